@@ -1545,9 +1545,10 @@ mod v_iface_sixlowpan {
     }
 
     // ---- 5. reassembly
-    // @harness props=C20,C03 cfg=KL tier=q to=1800 mem=8 unwind=20 opts=nomem,fs256 covers=4 funcs=InterfaceInner::process_sixlowpan_fragment;PacketAssemblerSet::get;PacketAssembler::add_with;PacketAssembler::add;PacketAssembler::assemble;InterfaceInner::sixlowpan_to_ipv6 bounds=ghost_datagram_of_64_octets_sent_as_FRAG1_+_2_FRAGN_(13-octet_frames);_slot_state_=_any_2_of_the_3_fragments_in_any_order;_step_=_any_genuine_fragment_(missing_or_duplicate)_or_a_fragment_with_foreign_tag_/_other_datagram_size_(>=48_for_FRAG1,_see_lowpan_frag_rx_free)_and_any_offset;_then_the_missing_fragment;_2_reassembly_slots_of_256_octets
-    #[kani::proof]
-    pub(crate) fn lowpan_frag_rx_step() {
+    /// slot state = genuine fragments w1 then w2 (0 = FRAG1, 1 = FRAGN offset 6, 2 = FRAGN offset 7) already received;
+    /// step = a fragment with the layout of fragment `kind` and symbolic tag / datagram_size / offset; then the missing
+    /// fragment.  w1, w2, kind are concrete per harness (symbolic kinds: out of memory at 8 GB after 11 min, measured)
+    fn frag_rx_case(w1: u8, w2: u8, kind: u8) {
         let g = GhostD { sll: kani::any(), dll: kani::any(), sport: kani::any(), dport: kani::any(), ck: kani::any(), data: kani::any(), tag: kani::any() };
         kani::assume(g.dport != 0);
         let hw: [u8; 8] = g.dll;
@@ -1555,25 +1556,22 @@ mod v_iface_sixlowpan {
         let Interface { inner, fragments, .. } = &mut iface;
         let r802 = ieee(Some(Ieee802154Address::Extended(g.sll)), Some(Ieee802154Address::Extended(g.dll)));
         let off = |w: u8| if w == 1 { 6u8 } else { 7u8 };
-        // slot state: two distinct genuine fragments already received, in any order
-        let w1: u8 = kani::any();
-        let w2: u8 = kani::any();
-        kani::assume(w1 < 3 && w2 < 3 && w1 != w2);
         let w3 = 3 - w1 - w2;
         let (d1, _, _) = rx_feed(inner, fragments, &r802, &frag_frame(&g, w1, GD as u16, g.tag, off(w1)));
         let (d2, _, _) = rx_feed(inner, fragments, &r802, &frag_frame(&g, w2, GD as u16, g.tag, off(w2)));
         assert!(!d1 && !d2, "prop:c20_incomplete_datagram_not_delivered");
         // the step
-        let kind: u8 = kani::any();
-        kani::assume(kind < 3);
         let tag: u16 = kani::any();
         let size: u16 = kani::any();
         let offset: u8 = kani::any();
-        kani::assume(size < 2048);
+        // (datagram sizes above the 256-octet reassembly buffer are refused by `set_total_size`; < 256 keeps the
+        // dispatch octet of the frame concrete)
+        kani::assume(size < 256);
         let genuine = tag == g.tag && size == GD as u16;
         if genuine {
             kani::assume(offset == off(kind));
         } else if kind == 0 {
+            // smaller FRAG1 sizes: finding of lowpan_frag_rx_free (subtraction overflow)
             kani::assume(size >= 48);
         }
         let (ds, ns, cs) = rx_feed(inner, fragments, &r802, &frag_frame(&g, kind, size, tag, offset));
@@ -1594,10 +1592,45 @@ mod v_iface_sixlowpan {
                 assert_is_ghost(&g, nf, &cf);
             }
         }
-        kani::cover!(genuine && ds && w3 == 0, "completed by a late FRAG1");
-        kani::cover!(genuine && !ds, "duplicate fragment");
-        kani::cover!(!genuine && tag == g.tag && kind != 0, "FRAGN with the same tag but another datagram size");
-        kani::cover!(!genuine && ds, "foreign one-fragment datagram delivered");
+        kani::cover!(genuine, "genuine fragment (missing one or duplicate)");
+        kani::cover!(!genuine && tag == g.tag, "same tag, other datagram size");
+        kani::cover!(!genuine && size == GD as u16, "same size, foreign tag");
+    }
+
+    // @harness props=C20,C03 cfg=KL tier=q to=1800 mem=8 unwind=20 opts=nomem,fs256 covers=3 funcs=InterfaceInner::process_sixlowpan_fragment;PacketAssemblerSet::get;PacketAssembler::set_total_size;PacketAssembler::add_with;PacketAssembler::add;PacketAssembler::assemble;InterfaceInner::sixlowpan_to_ipv6 bounds=ghost_datagram_of_64_octets_(fe80::IID_addresses,_UDP,_16_data_octets,_all_values_symbolic)_sent_as_FRAG1_+_2_FRAGN_(13-octet_frames);_both_FRAGN_received_first;_step_=_a_FRAG1_(the_late_genuine_one_or_foreign)_with_symbolic_tag,_datagram_size_<256_(>=48_for_a_foreign_FRAG1)_and_offset;_then_the_missing_fragment;_2_reassembly_slots_of_256_octets
+    #[kani::proof]
+    pub(crate) fn lowpan_frag_rx_step_12_0() {
+        frag_rx_case(1, 2, 0);
+    }
+
+    // @harness props=C20,C03 cfg=KL tier=q to=1800 mem=8 unwind=20 opts=nomem,fs256 covers=3 funcs=InterfaceInner::process_sixlowpan_fragment;PacketAssemblerSet::get;PacketAssembler::set_total_size;PacketAssembler::add_with;PacketAssembler::add;PacketAssembler::assemble;InterfaceInner::sixlowpan_to_ipv6 bounds=ghost_datagram_of_64_octets_(fe80::IID_addresses,_UDP,_16_data_octets,_all_values_symbolic)_sent_as_FRAG1_+_2_FRAGN_(13-octet_frames);_FRAG1_and_the_last_FRAGN_received;_step_=_a_FRAGN_(the_missing_middle_one_or_foreign)_with_symbolic_tag,_datagram_size_<256_(>=48_for_a_foreign_FRAG1)_and_offset;_then_the_missing_fragment;_2_reassembly_slots_of_256_octets
+    #[kani::proof]
+    pub(crate) fn lowpan_frag_rx_step_02_1() {
+        frag_rx_case(0, 2, 1);
+    }
+
+    // @harness props=C20,C03 cfg=KL tier=t to=1800 mem=8 unwind=20 opts=nomem,fs256 covers=3 funcs=InterfaceInner::process_sixlowpan_fragment;PacketAssemblerSet::get;PacketAssembler::set_total_size;PacketAssembler::add_with;PacketAssembler::add;PacketAssembler::assemble;InterfaceInner::sixlowpan_to_ipv6 bounds=ghost_datagram_of_64_octets_(fe80::IID_addresses,_UDP,_16_data_octets,_all_values_symbolic)_sent_as_FRAG1_+_2_FRAGN_(13-octet_frames);_FRAG1_and_first_FRAGN_received;_step_=_a_FRAGN_(duplicate_or_foreign)_with_symbolic_tag,_datagram_size_<256_(>=48_for_a_foreign_FRAG1)_and_offset;_then_the_missing_fragment;_2_reassembly_slots_of_256_octets
+    #[kani::proof]
+    pub(crate) fn lowpan_frag_rx_step_01_1() {
+        frag_rx_case(0, 1, 1);
+    }
+
+    // @harness props=C20,C03 cfg=KL tier=t to=1800 mem=8 unwind=20 opts=nomem,fs256 covers=3 funcs=InterfaceInner::process_sixlowpan_fragment;PacketAssemblerSet::get;PacketAssembler::set_total_size;PacketAssembler::add_with;PacketAssembler::add;PacketAssembler::assemble;InterfaceInner::sixlowpan_to_ipv6 bounds=ghost_datagram_of_64_octets_(fe80::IID_addresses,_UDP,_16_data_octets,_all_values_symbolic)_sent_as_FRAG1_+_2_FRAGN_(13-octet_frames);_FRAGNs_in_reverse_order;_step_=_a_FRAGN_(duplicate_or_foreign)_with_symbolic_tag,_datagram_size_<256_(>=48_for_a_foreign_FRAG1)_and_offset;_then_the_missing_fragment;_2_reassembly_slots_of_256_octets
+    #[kani::proof]
+    pub(crate) fn lowpan_frag_rx_step_21_2() {
+        frag_rx_case(2, 1, 2);
+    }
+
+    // @harness props=C20,C03 cfg=KL tier=t to=1800 mem=8 unwind=20 opts=nomem,fs256 covers=3 funcs=InterfaceInner::process_sixlowpan_fragment;PacketAssemblerSet::get;PacketAssembler::set_total_size;PacketAssembler::add_with;PacketAssembler::add;PacketAssembler::assemble;InterfaceInner::sixlowpan_to_ipv6 bounds=ghost_datagram_of_64_octets_(fe80::IID_addresses,_UDP,_16_data_octets,_all_values_symbolic)_sent_as_FRAG1_+_2_FRAGN_(13-octet_frames);_last_FRAGN_then_FRAG1;_step_=_a_FRAG1_(duplicate_or_foreign)_with_symbolic_tag,_datagram_size_<256_(>=48_for_a_foreign_FRAG1)_and_offset;_then_the_missing_fragment;_2_reassembly_slots_of_256_octets
+    #[kani::proof]
+    pub(crate) fn lowpan_frag_rx_step_20_0() {
+        frag_rx_case(2, 0, 0);
+    }
+
+    // @harness props=C20,C03 cfg=KL tier=t to=1800 mem=8 unwind=20 opts=nomem,fs256 covers=3 funcs=InterfaceInner::process_sixlowpan_fragment;PacketAssemblerSet::get;PacketAssembler::set_total_size;PacketAssembler::add_with;PacketAssembler::add;PacketAssembler::assemble;InterfaceInner::sixlowpan_to_ipv6 bounds=ghost_datagram_of_64_octets_(fe80::IID_addresses,_UDP,_16_data_octets,_all_values_symbolic)_sent_as_FRAG1_+_2_FRAGN_(13-octet_frames);_first_FRAGN_then_FRAG1;_step_=_a_FRAGN_(the_missing_last_one_or_foreign)_with_symbolic_tag,_datagram_size_<256_(>=48_for_a_foreign_FRAG1)_and_offset;_then_the_missing_fragment;_2_reassembly_slots_of_256_octets
+    #[kani::proof]
+    pub(crate) fn lowpan_frag_rx_step_10_2() {
+        frag_rx_case(1, 0, 2);
     }
 
     // @harness props=C03,C20 cfg=KL tier=q to=1800 mem=8 unwind=12 opts=fs256 covers=2 funcs=InterfaceInner::process_sixlowpan_fragment;SixlowpanFragPacket::new_checked;SixlowpanFragPacket::get_key;PacketAssemblerSet::get;PacketAssembler::set_total_size;PacketAssembler::add_with;PacketAssembler::add;InterfaceInner::sixlowpan_to_ipv6 bounds=one_frame_of_<=15_octets_starting_with_a_FRAG1/FRAGN_dispatch:_datagram_size,_tag,_offset_arbitrary;_FRAG1_continues_with_IPHC_7e_33_+_<=9_arbitrary_octets,_FRAGN_with_<=10_arbitrary_octets;_link-layer_addresses_short_or_extended;_fresh_reassembly_buffers
